@@ -57,8 +57,12 @@ RULES = {
     "what belongs to the object (its write lock) - never the byte range, offset or index of the position the loop is at: one tensor "
     "object may back several initializers (tied weights), the table then keeps the last position's data and every occurrence is "
     "written there, leaving the earlier ranges as holes (zeros after reload)",
+    "R14": "what is loaded back is read where it was written (rule shared with C04-R9): every position at which ExternalTensor indexes its "
+    "mapping of the data file - the frombuffer offset of numpy(), the slice of tobytes() - is taken in the mapping's own coordinate system; "
+    "a mapping that starts at a page boundary below the tensor while tobytes() still slices with the absolute file offset returns no or "
+    "wrong bytes for every initializer beyond the first page, although the file is right",
 }
-FLOORS = {"R1": 4, "R2": 4, "R3": 20, "R4": 1, "R5": 3, "R6": 25, "R7": 1, "R8": 2, "R9": 1, "R10": 1, "R11": 2, "R12": 3, "R13": 1}
+FLOORS = {"R1": 4, "R2": 4, "R3": 20, "R4": 1, "R5": 3, "R6": 25, "R7": 1, "R8": 2, "R9": 1, "R10": 1, "R11": 2, "R12": 3, "R13": 1, "R14": 2}
 EXPLANATION = (
     "Class-qualified effect summaries of the try bodies and finally blocks of the two save entry points; data-flow "
     "checks on the initializer collection loops and on the offset accumulators; table agreement between the "
@@ -606,6 +610,7 @@ def rule_r13(ctx):
 
 
 def run(ctx):
+    c04.rule_r9(ctx, rule="R14", consequence="; an external initializer loaded back from the data file then differs from the one that was saved")
     rule_r13(ctx)
     rule_r12(ctx)
     rule_r11(ctx)
